@@ -802,6 +802,8 @@ fn gen_hist(a: &HashMap<String, String>) {
                 let ts = if value { g.value_expr() } else { g.filter() };
                 let fsch = if r.random_range(0..8) == 0 { 3 - sid } else { sid };
                 json!({"op": if value { "execv" } else { "exec" }, "c": c, "fsch": fsch, "ts": ts})
+            } else if x < 97 {
+                json!({"op": "roundtrip", "c": c})
             } else {
                 let v = gen_val(&mut r, &f.ty, 0);
                 let v = if r.random_range(0..2) == 0 { spoil(&mut r, &v) } else { v };
@@ -810,7 +812,7 @@ fn gen_hist(a: &HashMap<String, String>) {
             let res = w.apply(&op);
             *stats.entry(format!("{}.{}", op["op"].as_str().unwrap(), res["out"].as_str().unwrap())).or_default() += 1;
             let touched = match op["op"].as_str().unwrap() {
-                "clone" | "take" | "new" => w.ctxs.len(),
+                "clone" | "take" | "new" | "roundtrip" => w.ctxs.len(),
                 _ => c,
             };
             emit(&mut tw, json!({"ev": "op", "id": nev, "h": h, "op": op, "res": res, "c": touched, "after": w.abs(touched)}));
